@@ -209,6 +209,8 @@ def main(tier):
     for v in run.violations:
         if v.pop("_pending", False):
             v["no_failing_input_found"] = v["command_line"] not in oracle_lines
+    # report disagreements that come with a failing input first (only the first 20 replays are written)
+    run.violations.sort(key=lambda v: (bool(v.get("no_failing_input_found")), not v["kind"].startswith("oracle:")))
     tb = ["Coq 8.16.1 kernel + vm_compute (refuted witnesses only)", "axioms under Print Assumptions: " + (", ".join(sorted(axioms)) or "none (Closed under the global context)"),
           "extraction: ExtrOcamlBasic only; OCaml 4.13.1; zarith for decimal I/O in driver.ml",
           "harness/leafdrv.c, ocaml/driver.ml, checks/c16.py (generators, oracle in Python big integers)",
